@@ -8,19 +8,28 @@ def rng_for(seed, *tags):
     return np.random.default_rng(int.from_bytes(h[:8], "little"))
 
 
-EXTRA_GRIDS = ["nearuniform", "tiny", "huge"]
+EXTRA_GRIDS = ["nearuniform", "tiny", "huge", "crossing", "negative"]
 
 
-def grid(rng, n=None, kind=None, lo=None, hi=None, zero=None, extra=0.0):
+def grid(rng, n=None, kind=None, lo=None, hi=None, zero=None, extra=0.0, extra_kinds=None):
     """strictly increasing abscissa grid; returns (x, kind-string).
     `extra` = probability of one of the stress kinds: "nearuniform" (bin widths equal to ~1e-7 relative: every
     tolerance-based uniformity test says yes, the grid is not uniform), "tiny" / "huge" (an ordinary grid in units
     1e-9 / 1e5 times smaller / larger: absolute tolerances and unit assumptions show)"""
     if kind is None and extra and rng.random() < extra:
-        kind = str(rng.choice(EXTRA_GRIDS))
+        kind = str(rng.choice(extra_kinds or EXTRA_GRIDS))
     if kind in ("tiny", "huge"):
         x, k = grid(rng, n=n, kind=str(rng.choice(["uniform", "jitter", "irregular"])), lo=lo, hi=hi, zero=zero)
         return np.ascontiguousarray(x * (1e-9 if kind == "tiny" else 1e5)), kind + "-" + k
+    if kind in ("crossing", "negative"):
+        # strictly increasing grids with negative abscissae: crossing zero (with or without a point exactly at 0) or entirely below it
+        x, k = grid(rng, n=n, kind=str(rng.choice(["uniform", "jitter", "irregular"])), lo=lo, hi=hi, zero=zero)
+        if kind == "negative":
+            x = -x[::-1] - (0.0 if x[0] > 0 else float(rng.uniform(0.1, 1.0)))
+        else:
+            j = int(rng.integers(0, max(len(x) - 1, 1)))   # the largest abscissa stays positive
+            x = x - (x[j] if rng.random() < 0.6 else 0.5 * (x[0] + x[-1]))
+        return np.ascontiguousarray(x, dtype=float), kind + "-" + k
     if kind == "nearuniform":
         x, _ = grid(rng, n=n, kind="uniform", lo=lo, hi=hi, zero=zero)
         if len(x) > 2:
